@@ -4,7 +4,9 @@
 `knownFindings`: objects with static storage duration that library code WRITES (the property is false
 for them today; each is listed in `/verif/known_findings.d/C18.json` under the signature
 `C18:shared-write:<file>:<object>` and confirmed dynamically by a ThreadSanitizer report).
-Ideally this list is empty.
+Ideally this list is empty.  Repaired objects are REMOVED from it (a fixed finding suppresses nothing):
+`addr_offset8/16/32` (mir-interp.c), `patterns` (mir-gen-x86_64.c) and c2mir's `VOID_TYPE` were listed
+here until the repairs 58f1a26e / e4233460 / 0f72b34c; a write to any of them is a VIOLATION again.
 
 `reviewedEscapes`: exact write-site entries `(file, object, function, kind)` of kind `addr-escape`
 whose pointer was followed by hand and is never written through; only *these sites* are accepted, any
@@ -22,13 +24,8 @@ namespace MirVerif.Footprint
 
 /-- `(file, object)` -/
 def knownFindings : List (String × String) := [
-  ("mir-interp.c", "addr_offset8"),
-  ("mir-interp.c", "addr_offset16"),
-  ("mir-interp.c", "addr_offset32"),
-  ("mir-gen-x86_64.c", "patterns"),
   ("mir2c/mir2c.c", "curr_func"),
-  ("mir2c/mir2c.c", "curr_temp"),
-  ("c2mir/c2mir.c", "VOID_TYPE")
+  ("mir2c/mir2c.c", "curr_temp")
 ]
 
 /-- `(file, object, function, kind)` -/
